@@ -87,6 +87,9 @@ pub enum Mut {
     /// have moved the client on: it has to be refused as well), then the canonical request of this
     /// position (which must still pass)
     WrongStepThen { send: usize },
+    /// the whole canonical sequence including End is walked first; then the canonical request of
+    /// step `send` (Test01..Test11) is sent under the finished client id: a step out of order
+    AfterEnd { send: usize },
     UnknownClientId,
     NoParameters,
     /// the `parameters` member as a whole replaced by a non-object value
@@ -130,6 +133,9 @@ pub struct QCase {
     /// clients are started (Start only) on other connections, then the first client sends End
     #[serde(default)]
     pub many: usize,
+    /// a raw canonical client pauses `secs` seconds (far below the 12 h lifetime) before step `at`
+    #[serde(default)]
+    pub pause: Option<(usize, u64)>,
     pub sched: SchedCfg,
 }
 
@@ -329,7 +335,7 @@ fn apply(req: &mut Value, m: &Mut) {
         Mut::SetParams(v) => {
             req.as_object_mut().unwrap().insert("parameters".into(), v.clone());
         }
-        Mut::WrongStep { .. } | Mut::WrongStepThen { .. } | Mut::Duplicate | Mut::Race { .. } => {}
+        Mut::WrongStep { .. } | Mut::WrongStepThen { .. } | Mut::AfterEnd { .. } | Mut::Duplicate | Mut::Race { .. } => {}
     }
 }
 
@@ -408,7 +414,7 @@ pub fn run_q(case: &QCase) -> (SimEnd, crate::sched::SimStats, QObs) {
             stalled_ids.push(id);
         }
         // clock-jump history
-        if let Some((old, new, order)) = &c.jump {
+        {
             struct Walker {
                 raw: Raw,
                 client_id: String,
@@ -426,7 +432,7 @@ pub fn run_q(case: &QCase) -> (SimEnd, crate::sched::SimStats, QObs) {
                 }
                 let last = replies.last().cloned().unwrap_or(Value::Null);
                 if last.get("error").is_some() || replies.is_empty() || ended {
-                    return Err(format!("canonical step {} of a client that started after the clock jump failed: {}", STEPS[st], last));
+                    return Err(format!("canonical step {} failed: {}", STEPS[st], last));
                 }
                 if st == 0 {
                     w.client_id = last["parameters"]["client_id"].as_str().unwrap_or("").to_string();
@@ -444,6 +450,26 @@ pub fn run_q(case: &QCase) -> (SimEnd, crate::sched::SimStats, QObs) {
                 strings: vec![],
                 next: 0,
             };
+            // a pause in mid-sequence that is far shorter than the 12 h lifetime of a client id: the
+            // client keeps its connection open, the clock moves on, the sequence is continued
+            if let Some((at, secs)) = &c.pause {
+                let mut w = mk(&net, &ctl);
+                let mut fails = Vec::new();
+                while w.next < 13 {
+                    if w.next == *at {
+                        wait_quiescent(&ctl);
+                        let now = net.lock().now;
+                        net.set_clock(now + secs * 1000, false);
+                    }
+                    if let Err(e) = step(&mut w) {
+                        fails.push(format!("a canonical client that paused {} s before {}: {}", secs, STEPS[*at], e));
+                        break;
+                    }
+                }
+                net.client_half_close(w.raw.id);
+                out2.lock().unwrap().jump_failures.extend(fails);
+            }
+            if let Some((old, new, order)) = &c.jump {
             let mut olds: Vec<Walker> = (0..*old).map(|_| mk(&net, &ctl)).collect();
             for w in olds.iter_mut() {
                 let _ = step(w);
@@ -471,7 +497,8 @@ pub fn run_q(case: &QCase) -> (SimEnd, crate::sched::SimStats, QObs) {
             for w in olds.iter().chain(news.iter()) {
                 net.client_half_close(w.raw.id);
             }
-            out2.lock().unwrap().jump_failures = fails;
+            out2.lock().unwrap().jump_failures.extend(fails.into_iter().map(|e| format!("a client that started after the clock jump: {}", e)));
+            }
         }
         // long history: many client ids issued while one client is about to finish
         if c.many > 0 {
@@ -525,11 +552,17 @@ pub fn run_q(case: &QCase) -> (SimEnd, crate::sched::SimStats, QObs) {
             let id = net.connect(ConnOpts::default());
             let mut raw = Raw { net: net.clone(), ctl: ctl.clone(), id, consumed: 0, interleave: c.interleave };
             let mut ob = DevObs::default();
-            match walk(&mut raw, d.step, &mut canon_params) {
+            let upto = if matches!(d.m, Mut::AfterEnd { .. }) { 13 } else { d.step };
+            match walk(&mut raw, upto, &mut canon_params) {
                 Err(e) => ob.prefix_failed = Some(e),
                 Ok((client_id, prev, strings)) => {
                     let mut req = match &d.m {
                         Mut::WrongStep { send } | Mut::WrongStepThen { send } => canonical_request(*send, &client_id, &prev, &strings),
+                        // (Test02's canonical argument is the fixed reply of Test01)
+                        Mut::AfterEnd { send } => {
+                            let p = if *send == 2 { json!({"bool": true}) } else { Value::Null };
+                            canonical_request(*send, &client_id, &p, &strings)
+                        }
                         _ => canonical_request(d.step, &client_id, &prev, &strings),
                     };
                     apply(&mut req, &d.m);
@@ -834,11 +867,12 @@ pub fn eval_q(case: &QCase) -> RunResult {
     RunResult {
         violations,
         sig: sig.0,
-        nontrivial: case.canonical + case.deviants.len() + case.stalled + case.jump.is_some() as usize + case.many >= 1,
+        nontrivial: case.canonical + case.deviants.len() + case.stalled + case.jump.is_some() as usize + case.pause.is_some() as usize + case.many >= 1,
         faults: vec![
             ("deviating_request_sent", o.dev.iter().filter(|d| d.reached).count() as u64),
             ("coarse_monotonic_clock", case.coarse_clock as u64),
             ("clock_jump_13h", case.jump.is_some() as u64),
+            ("client_paused_in_mid_sequence", case.pause.is_some() as u64),
             ("peer_never_reads", case.stalled as u64),
         ],
         probes: vec![
@@ -1012,6 +1046,12 @@ pub fn deviation_space(canon_params: &[Value]) -> Vec<Deviation> {
                 v.push(Deviation { step, m: Mut::WrongStep { send } });
             }
         }
+        // a finished client id is not a fresh one: after End every earlier step is out of order
+        if step == 12 {
+            for send in 1..12 {
+                v.push(Deviation { step, m: Mut::AfterEnd { send } });
+            }
+        }
         // ... and what a refused step leaves behind (only where the parameters of the follow-up steps
         // do not depend on replies the client has not seen: steps with a client id only, i.e. Test01 and End)
         if step >= 1 && step != 11 {
@@ -1027,7 +1067,7 @@ pub fn deviation_space(canon_params: &[Value]) -> Vec<Deviation> {
 
 pub fn c19_plan(tier: Tier) -> Plan {
     // one raw canonical walk against the real service yields the canonical parameters of every step
-    let probe = QCase { canonical: 0, deviants: vec![], interleave: false, coarse_clock: false, stalled: 0, jump: None, many: 0, sched: SchedCfg::uniform(1) };
+    let probe = QCase { canonical: 0, deviants: vec![], interleave: false, coarse_clock: false, stalled: 0, jump: None, many: 0, pause: None, sched: SchedCfg::uniform(1) };
     let (_, _, o) = run_q(&probe);
     let canon = o.canon_params.clone();
     let devs = deviation_space(&canon);
@@ -1050,6 +1090,7 @@ pub fn c19_plan(tier: Tier) -> Plan {
                     stalled: 0,
                     jump: None,
                     many: 0,
+                    pause: None,
                     sched: SchedCfg::random(&mut rng, 1),
                 })
             }),
@@ -1064,7 +1105,7 @@ pub fn c19_plan(tier: Tier) -> Plan {
             gen: Box::new(move |idx, seed| {
                 let mut rng = Rng::new(seed);
                 let k = if idx < 16 { idx as usize + 1 } else if rng.chance(1, 6) { rng.range(9, 16) as usize } else { rng.range(2, 8) as usize };
-                Case::Q(QCase { canonical: k, deviants: vec![], interleave: false, coarse_clock: false, stalled: 0, jump: None, many: 0, sched: SchedCfg::random(&mut rng, 1) })
+                Case::Q(QCase { canonical: k, deviants: vec![], interleave: false, coarse_clock: false, stalled: 0, jump: None, many: 0, pause: None, sched: SchedCfg::random(&mut rng, 1) })
             }),
         });
     }
@@ -1080,7 +1121,7 @@ pub fn c19_plan(tier: Tier) -> Plan {
                 let k = rng.range(1, 6) as usize;
                 let nd = rng.range(1, 3) as usize;
                 let deviants = (0..nd).map(|_| rng.pick(&devs).clone()).collect();
-                Case::Q(QCase { canonical: k, deviants, interleave: rng.chance(2, 3), coarse_clock: false, stalled: 0, jump: None, many: 0, sched: SchedCfg::random(&mut rng, 1) })
+                Case::Q(QCase { canonical: k, deviants, interleave: rng.chance(2, 3), coarse_clock: false, stalled: 0, jump: None, many: 0, pause: None, sched: SchedCfg::random(&mut rng, 1) })
             }),
         });
     }
@@ -1103,6 +1144,7 @@ pub fn c19_plan(tier: Tier) -> Plan {
                     stalled: 0,
                     jump: None,
                     many: 0,
+                    pause: None,
                     sched: SchedCfg::random(&mut rng, 1),
                 })
             }),
@@ -1118,7 +1160,7 @@ pub fn c19_plan(tier: Tier) -> Plan {
             gen: Box::new(move |_idx, seed| {
                 let mut rng = Rng::new(seed);
                 let k = rng.range(2, 6) as usize;
-                Case::Q(QCase { canonical: k, deviants: vec![], interleave: false, coarse_clock: true, stalled: 0, jump: None, many: 0, sched: SchedCfg::random(&mut rng, 1) })
+                Case::Q(QCase { canonical: k, deviants: vec![], interleave: false, coarse_clock: true, stalled: 0, jump: None, many: 0, pause: None, sched: SchedCfg::random(&mut rng, 1) })
             }),
         });
     }
@@ -1139,6 +1181,7 @@ pub fn c19_plan(tier: Tier) -> Plan {
                     stalled: rng.range(1, 2) as usize,
                     jump: None,
                     many: 0,
+                    pause: None,
                     sched: SchedCfg::random(&mut rng, 1),
                 })
             }),
@@ -1171,6 +1214,7 @@ pub fn c19_plan(tier: Tier) -> Plan {
                     stalled: 0,
                     jump: Some((old, new, order)),
                     many: 0,
+                    pause: None,
                     sched: SchedCfg::random(&mut rng, 1),
                 })
             }),
@@ -1194,6 +1238,35 @@ pub fn c19_plan(tier: Tier) -> Plan {
                     stalled: 0,
                     jump: None,
                     many,
+                    pause: None,
+                    sched: SchedCfg::random(&mut rng, 1),
+                })
+            }),
+        });
+    }
+    {
+        // a canonical client that pauses in mid-sequence (2 s .. 11 h, the id lives 12 h) with its
+        // connection open, alone or beside other canonical clients
+        let pauses: [u64; 8] = [2, 3, 5, 30, 61, 600, 3600, 11 * 3600];
+        let seeds: u64 = if tier == Tier::Quick { 1 } else { 10 };
+        spaces.push(Space {
+            name: "Q.canonical.paused-client",
+            size: 12 * pauses.len() as u64 * seeds,
+            exhaustive: true,
+            gen: Box::new(move |idx, seed| {
+                let mut rng = Rng::new(seed);
+                let k = idx / seeds;
+                let at = 1 + (k % 12) as usize;
+                let secs = pauses[(k / 12) as usize];
+                Case::Q(QCase {
+                    canonical: (idx % 2) as usize,
+                    deviants: vec![],
+                    interleave: false,
+                    coarse_clock: idx % 3 == 0,
+                    stalled: 0,
+                    jump: None,
+                    many: 0,
+                    pause: Some((at, secs)),
                     sched: SchedCfg::random(&mut rng, 1),
                 })
             }),
